@@ -359,9 +359,22 @@ structure Cert where
   na : Int
   deriving DecidableEq, Repr
 
+/-- What the rotation loop could find out about the error a failed fetch returned: the two predicates
+`errors.Is(err, context.Canceled)` / `errors.Is(err, context.DeadlineExceeded)` (true for the bare
+sentinels, for `fmt.Errorf("…%w")` / `errors.Join` chains, for custom types with `Is` / `Unwrap`, for the
+`Err()` of a child context the issuer created itself — e.g. a per-request timeout) and a `tag` standing
+for everything else about the value (dynamic type, message, how it is wrapped).  The context handed to
+`Run` is ALIVE in every state of this automaton (there is no cancel action), so no error kind means
+"shutting down". -/
+structure ErrKind where
+  isCanceled : Bool := false
+  isDeadline : Bool := false
+  tag : Nat := 0
+  deriving DecidableEq, Repr
+
 /-- One scripted answer of the issuer. -/
 inductive Reply where
-  | fail
+  | fail (k : ErrKind := {})      -- the fetch returns an error of kind `k`
   | ok (nb na : Int)
   | okAnchorsFail (nb na : Int)   -- chain issued, but `CurrentTrustAnchors` / `dir.Write` fails (matters only with a write dir)
   deriving DecidableEq, Repr
@@ -419,7 +432,7 @@ An exhausted script is an issuer failure. -/
 def outcome (s : RN) : Option Cert × List Reply :=
   match s.script with
   | [] => (none, [])
-  | .fail :: rest => (none, rest)
+  | .fail _ :: rest => (none, rest)     -- whatever the kind of the error: `if err != nil`
   | .ok nb na :: rest => (some ⟨s.reqTok, nb, na⟩, rest)
   | .okAnchorsFail nb na :: rest => (if s.dirOn then none else some ⟨s.reqTok, nb, na⟩, rest)
 
@@ -508,6 +521,13 @@ def runActs (s : RN) : List Act → List RN
 def Act.ok : Act → Bool
   | .adv d => decide (0 < d)
   | _ => true
+
+/-- The script with every issuer error replaced by a plain one (kind `{}`), and a state over it. -/
+def Reply.plain : Reply → Reply
+  | .fail _ => .fail {}
+  | r => r
+
+def RN.plain (s : RN) : RN := { s with script := s.script.map Reply.plain }
 
 /-- Most recent successful request of a log (newest first). -/
 def lastGood : List Req → Option Nat
